@@ -431,3 +431,69 @@ def rule_GI(F, R):
         else:
             R.ok("GI", "accept path: version file + meta -> commit -> push()==true -> Ok", w)
     R.floor("GI", "accept paths of the git add_version", n, 2)
+
+
+def rule_K7(F, R):
+    R.begin("K7", "object store: the uploaded version object is deleted inside add_version only when the compare-and-swap is known to have failed (returned Ok(false)); with an unknown outcome the object may already be named by the head")
+    im, b = r_cloud.cloud_add_version(F)
+    if b is None:
+        R.missing("K7", "object-store add_version")
+        return
+    from tc.util import bool_origin, guards_of, switch_true_edges
+    c = cfg_of(b)
+    fl = flow_of(b)
+    cas = calls_matching(c, re.escape(r_cloud.SERVICE) + "::compare_and_swap$")
+    dels = calls_matching(c, re.escape(r_cloud.SERVICE) + "::del$")
+    if not cas:
+        R.missing("K7", "compare_and_swap in add_version")
+        return
+    for (i, t) in dels:
+        ok = False
+        for (s, labs) in guards_of(c, i):
+            bo = bool_origin(fl, c.term(s)["o"])
+            if bo and bo[0] in {k for k, _t in cas}:
+                te = switch_true_edges(c, s, bo[2])
+                on_true = all(l in [e[2] for e in te] for l in labs)
+                if not on_true:
+                    ok = True
+        if ok:
+            R.ok("K7", "version object deleted only on swap == false", where(b, i))
+        else:
+            R.violation("K7", b["owner_fn"], "object-deleted-on-unknown-swap-outcome", "Service::del at %s is not confined to the `compare_and_swap returned false` outcome: after a swap that was applied but reported as an error the head would name a deleted object" % loc(t["sp"]), where(b, i))
+    if not dels:
+        R.ok("K7", "add_version never deletes the uploaded object", where(b))
+
+
+def rule_GC(F, R):
+    R.begin("GC", "git backend: NoSuchVersion is answered only after the shared remote was consulted (reset_to_remote); opening a repository always removes stray files of an interrupted write")
+    ms = impl_methods(F)
+    b = ms.get(("git", "get_child_version"))
+    if b is None:
+        R.missing("GC", "git get_child_version")
+    else:
+        c = cfg_of(b)
+        rr = calls_matching(c, r"GitSyncServer::reset_to_remote$")
+        sites = agg_sites(c, "GetVersionResult", "NoSuchVersion")
+        if not sites or not rr:
+            R.missing("GC", "NoSuchVersion construction / reset_to_remote call in git get_child_version")
+        for (i, j, st) in sites:
+            if any(c.dominates(k, i) for k, _t in rr):
+                R.ok("GC", "NoSuchVersion only after reset_to_remote", where(b, sp=st["sp"]))
+            else:
+                R.violation("GC", b["owner_fn"], "no-such-version-from-local-state", "NoSuchVersion can be answered from the local clone's state without fetching the remote: a child pushed by another replica is reported as missing", where(b, sp=st["sp"]))
+    ib = F.bodies.get("server::gitsync::GitSyncServer::init_repo")
+    if ib is None:
+        R.missing("GC", "GitSyncServer::init_repo")
+        return
+    c = cfg_of(ib)
+    cl = calls_matching(c, r"::clean_stray_files$")
+    if not cl:
+        R.violation("GC", ib["path"], "no-stray-file-clean", "init_repo does not remove stray files left by an interrupted write", where(ib))
+        return
+    oks = [(i, st) for (i, j, st) in agg_sites(c, "result::Result", "Ok") if st["l"]["l"] == 0]
+    r = c.reachable(0, removed={i for i, _t in cl})
+    bad = [i for (i, _st) in oks if i in r]
+    if bad:
+        R.violation("GC", ib["path"], "conditional-stray-file-clean", "a repository can be opened successfully without clean_stray_files having run: an untracked version file from an interrupted add-version stays visible as a child of the latest version", where(ib, bad[0]))
+    else:
+        R.ok("GC", "every successful open runs clean_stray_files", where(ib, cl[0][0]))
